@@ -192,6 +192,12 @@ func gen(t *rapid.T) (*scen.Scenario, []string) {
 		if ai == pingAt {
 			steps = append(steps, scen.Step{Op: "ping"})
 		}
+		if st.Op == "answer" && st.Container && rapid.IntRange(0, 2).Draw(t, "rider") == 0 {
+			// the container that brings the answers also brings a service message of the server's own
+			rk := rapid.SampledFrom([]string{"bad-msg", "bad-msg", "pong", "ack", "state-info", "all-info", "detailed-info"}).Draw(t, "riderkind")
+			st.Push = &scen.PushSpec{Kind: rk, Arg: int64(rapid.IntRange(1, 1<<20).Draw(t, "riderarg")) << 2}
+			cls = append(cls, "server-history:service-message-in-the-container-of-the-answers", "server-history:rider:"+rk)
+		}
 		steps = append(steps, st)
 		if st.Op == "answer" && rapid.IntRange(0, 2).Draw(t, "push") == 0 {
 			p := pushKinds[rapid.IntRange(0, len(pushKinds)-1).Draw(t, "pushkind")]
